@@ -302,6 +302,28 @@ Definition script (r : replica) (logs : list (N * list N)) (remote : heights) : 
   (if N.ltb 0 (snd ob) then PreSync (fst ob) (snd ob) :: flat_map (range_ops r) todo ++ [Done]
    else [Done]).
 
+(** * Specification: which operations the peer (who announced [h]) is missing *)
+Definition lookup2 (h : heights) (a l : N) : option N :=
+  match lookupN a h with None => None | Some ls => lookupN l ls end.
+
+Definition above (rh : option N) (s : N) : bool :=
+  match rh with None => true | Some x => N.ltb x s end.
+
+(** The rows of log [(a, l)] the peer (who announced [h]) is missing. *)
+Definition missing_rows (r : replica) (h : heights) (a l : N) : list row :=
+  filter (fun w => above (lookup2 h a l) (r_seq w)) (rows_of r (a, l)).
+
+Definition expected_ops (r : replica) (logs : list (N * list N)) (h : heights) : list (N * N * row) :=
+  flat_map (fun al => flat_map (fun l => map (fun w => (fst al, l, w)) (missing_rows r h (fst al) l)) (snd al)) logs.
+
+Definition omax (x y : option N) : option N :=
+  match x, y with
+  | None, _ => y
+  | _, None => x
+  | Some a, Some b => Some (N.max a b)
+  end.
+
+
 (** Ingest of received operations into a replica (modelled: the ingest pipeline accepts them and
     [insert_operation] adds the row to its log). *)
 Fixpoint add_row (r : replica) (k : N * N) (w : row) : replica :=
